@@ -17,11 +17,15 @@ RULE = ('random directories of 2-7 model files in up to 3 sub-directories with r
         'repository and builtin models. Per top-level load: every file of the import closure opened exactly once and no '
         'other; one model object per file across all repositories; every reference points into the model object of the '
         'file chosen by the documented order (model, its imports in order, builtin models); with a global repository a '
-        'repeated load returns the cached object without opening files and later loads share the cached files. distinct = '
+        'repeated load returns the cached object without opening files and later loads share the cached files. One case in ten: '
+        'FQNImportURI(importAs=True) with named / unnamed / repeated imports of 2-4 colliding library files, some loaded before '
+        '(by another file of the load, by an earlier load of a global repository): plain names resolve through own definitions '
+        'then unnamed imports in order, named imports only through their name, out-of-scope names fail. distinct = '
         '(import graph shape, provider, repository mode); non-trivial = graph has a cycle, a diamond or a colliding name')
 REQUIRED = {'top_level_loads': 300, 'files_open_checked': 800, 'references_checked': 500, 'cyclic_graphs': 30,
             'colliding_names_resolved': 50, 'cached_reloads': 30, 'builtin_model_resolutions': 10, 'glob_imports': 10,
-            'search_path_loads': 10, 'rrel_m_loads': 10, 'search_path_shadow_cases': 50}
+            'search_path_loads': 10, 'rrel_m_loads': 10, 'search_path_shadow_cases': 50, 'named_import_cases': 50,
+            'named_import_references_checked': 200, 'references_through_import_name': 50, 'out_of_scope_names_checked': 20}
 
 PROVIDERS = ['plain', 'fqn', 'search', 'rrel', 'globalrepo']
 
@@ -128,7 +132,142 @@ def search_path_shadow(ctx, i, rep):
         shutil.rmtree(tmp, ignore_errors=True)
 
 
+
+NAMED_GRAMMAR = '''
+Model: imports*=Import (defs+=Def | refs+=Ref)*;
+Import: 'import' importURI=STRING ('as' name=ID)?;
+Def: 'def' name=ID;
+Ref: 'ref' name=ID '->' target=[Def:FQN];
+FQN: ID('.'ID)*;
+'''
+
+
+def named_imports(ctx, i, rep):
+    """ImportURI(importAs=True): a file imported under a name is reachable through that name only; it does not take part
+    in the plain lookup of the importer (its own definitions, then the files of its unnamed imports in import order) -
+    wherever the file was loaded first (by another file of the same load, by an earlier load into a global repository)."""
+    from textx import metamodel_from_str, TextXError, TextXSemanticError
+    import textx.scoping.providers as sp
+    r = ctx.rng('named', i)
+    tmp = tempfile.mkdtemp(prefix='tvc17n_')
+    try:
+        nlib = r.randint(2, 4)
+        libs = ['l%d.m' % k for k in range(nlib)]
+        defs = {}
+        for k, f in enumerate(libs):
+            defs[f] = ['shared', 'only_%d' % k] + (['pair'] if r.random() < 0.5 else [])
+        files = {f: ''.join('def %s\n' % n for n in defs[f]) for f in libs}
+        # a file that imports some library files in the plain way (they are loaded before main reaches its own import)
+        mid_imps = r.sample(libs, r.randint(1, nlib))
+        files['mid.m'] = ''.join('import "%s"\n' % f for f in mid_imps) + 'def mid_def\n' + 'ref rm -> only_%s\n' % mid_imps[0][1:-2]
+        defs['mid.m'] = ['mid_def']
+        imports = []
+        if r.random() < 0.6:
+            imports.append(('mid.m', None))
+        for f in r.sample(libs, r.randint(1, nlib)):
+            imports.append((f, 'n%s' % f[1:-2] if r.random() < 0.55 else None))
+        if r.random() < 0.3:
+            # the same file a second time, the other way
+            f, al = r.choice(imports)
+            if f != 'mid.m':
+                imports.append((f, None if al else 'again'))
+        r.shuffle(imports)
+        own = ['main_def'] + (['shared'] if r.random() < 0.2 else [])
+        visible = []
+        for f, al in imports:
+            if al is None and f not in visible:
+                visible.append(f)
+
+        def expect_plain(name):
+            if name in own:
+                return 'main'
+            for f in visible:
+                if name in defs[f]:
+                    return f
+            return None
+        names = sorted({n for f in libs for n in defs[f]} | {'mid_def', 'main_def'})
+        good, bad = [], []
+        for n in names:
+            e = expect_plain(n)
+            (good if e else bad).append((n, e))
+        for f, al in imports:
+            if al:
+                for n in defs[f]:
+                    good.append(('%s.%s' % (al, n), f))
+        head = ''.join('import "%s"%s\n' % (f, ' as ' + al if al else '') for f, al in imports) + ''.join('def %s\n' % n for n in own)
+        mode = r.choice(['plain', 'global', 'global_preload', 'global_preload'])
+        mm = metamodel_from_str(NAMED_GRAMMAR, global_repository=mode != 'plain')
+        mm.register_scope_providers({'*.*': sp.FQNImportURI(importAs=True)})
+        for f, t in files.items():
+            with open(os.path.join(tmp, f), 'w') as fh:
+                fh.write(t)
+        wit = {'files': files, 'imports_of_main': imports, 'mode': mode}
+        pre = {}
+        if mode == 'global_preload':
+            for f in r.sample(libs + ['mid.m'], r.randint(1, nlib)):
+                pre[f] = mm.model_from_file(os.path.join(tmp, f))
+            wit['loaded_before'] = sorted(pre)
+        ctx.count('named_import_cases')
+        ctx.case(('named-imports', tuple((f, bool(a)) for f, a in imports), mode, tuple(sorted(pre))), True,
+                 wit if ctx.evaluations < 3 else None)
+        text = head + ''.join('ref r%d -> %s\n' % (k, n) for k, (n, _) in enumerate(good))
+        wit['main'] = text
+        path = os.path.join(tmp, 'main_ok.m')
+        with open(path, 'w') as fh:
+            fh.write(text)
+        try:
+            m = mm.model_from_file(path)
+        except TextXError as e:
+            ctx.violation(None, 'named imports: a model whose references are all in scope failed: %s' % str(e)[:160], wit, rep)
+            return
+        byfile = {}
+        for fn, lst in all_models_reachable(m).items():
+            if fn:
+                byfile[os.path.basename(fn)] = lst
+        for f, lst in byfile.items():
+            if len(lst) != 1:
+                ctx.violation(None, 'named imports: %d model objects for %s' % (len(lst), f), wit, rep)
+                return
+            if f in pre and lst[0] is not pre[f]:
+                ctx.violation(None, 'named imports: %s was loaded before into the global repository, the load uses another object' % f, wit, rep)
+                return
+        for k, (n, e) in enumerate(good):
+            ref = m.refs[k]
+            got = model_of(ref.target)
+            want = m if e == 'main' else byfile[e][0]
+            ctx.count('named_import_references_checked')
+            if '.' in n:
+                ctx.count('references_through_import_name')
+            if got is not want:
+                ctx.violation(None, 'named imports: reference %r of main resolves into %s, expected %s (lookup: own definitions, then '
+                              'the unnamed imports %r in order; named imports only through their name)' % (
+                                  n, os.path.basename(getattr(got, '_tx_filename', None) or '?'), e, visible), wit, rep)
+                return
+        # names that are defined only in files imported under a name (or not imported by main at all): not in scope
+        r.shuffle(bad)
+        for k, (n, _) in enumerate(bad[:2]):
+            path = os.path.join(tmp, 'main_bad%d.m' % k)
+            with open(path, 'w') as fh:
+                fh.write(head + 'ref rbad -> %s\n' % n)
+            ctx.count('out_of_scope_names_checked')
+            try:
+                mb = mm.model_from_file(path)
+            except TextXSemanticError:
+                continue
+            except TextXError as e:
+                ctx.violation(None, 'named imports: unexpected error for the out-of-scope name %r: %s' % (n, str(e)[:120]), wit, rep)
+                return
+            tgt = model_of(mb.refs[0].target)
+            ctx.violation(None, 'named imports: the name %r is not in scope of main (unnamed imports: %r) but resolves into %s' % (
+                n, visible, os.path.basename(getattr(tgt, '_tx_filename', None) or '?')), dict(wit, main=head + 'ref rbad -> %s\n' % n), rep)
+            return
+    finally:
+        shutil.rmtree(tmp, ignore_errors=True)
+
+
 def one(ctx, i, rep=None):
+    if i % 10 == 3:
+        return named_imports(ctx, i, rep or {'i': i})
     if i % 10 == 7:
         return search_path_shadow(ctx, i, rep or {'i': i})
     from textx import metamodel_from_str, TextXError
